@@ -269,6 +269,8 @@ pub struct Explorer {
   pub violations: Vec<Violation>,
   pub errors: Vec<String>,
   pub hash_seeds: Vec<u64>,
+  /// wall-clock guard (loaded machine): exploration of a harness stops here and is reported as pending
+  pub deadline: Option<std::time::Instant>,
 }
 
 impl Explorer {
@@ -279,6 +281,7 @@ impl Explorer {
       violations: vec![],
       errors: vec![],
       hash_seeds,
+      deadline: None,
     }
   }
 
@@ -295,7 +298,7 @@ impl Explorer {
     work.push_back(Item { model: HashMap::new(), bound: 0, expect: vec![] });
     let mut paths_here = 0u64;
     while let Some(item) = work.pop_front() {
-      if paths_here >= budget.max_paths {
+      if paths_here >= budget.max_paths || self.deadline.map_or(false, |d| std::time::Instant::now() > d) {
         self.stats.pending += work.len() as u64 + 1;
         self.stats.exhaustive = false;
         break;
